@@ -475,21 +475,33 @@ func (sc *C01Scenario) Execute(t *testing.T) *core.Outcome {
 	}
 	firstMsg = match(want)
 	if firstMsg != "" && len(amb) > 0 {
-		// enumerate choice vectors (bounded)
-		total := 1
+		// Enumerate choice vectors. The number of candidates at the i-th ambiguous Unsubscribe depends on the
+		// earlier choices (and on which re-entrant scripts ran), so a fixed radix a little above the largest
+		// number seen in the reference run is used for every position; the model takes the value modulo the
+		// actual number of candidates. Bounded: only reached after a mismatch.
+		radix := 2
 		for _, n := range amb {
-			total *= n
-			if total > 64 {
-				total = 64
-				break
+			if n+2 > radix {
+				radix = n + 2
 			}
 		}
+		if radix > 8 {
+			radix = 8
+		}
+		positions := len(amb) + 2
+		total := 1
+		for i := 0; i < positions && total <= 60000; i++ {
+			total *= radix
+		}
+		if total > 60000 {
+			total = 60000
+		}
 		for v := 1; v < total && firstMsg != ""; v++ {
-			choices := make([]int, len(amb)+4)
+			choices := make([]int, positions)
 			x := v
 			for i := range choices {
-				choices[i] = x % 4
-				x /= 4
+				choices[i] = x % radix
+				x /= radix
 			}
 			w2, _ := sc.runModel(choices)
 			if match(w2) == "" {
